@@ -3,6 +3,7 @@ from trkgen import *
 import importlib
 
 ID = "C05"
+SCHEDULE_DEPENDENT = True     # a failure that does not recur when the case is re-run is still reported (engine: report())
 THEOREM_MODULES = ["SimVerif.Props.C05", "SimVerif.Props.C05b", "SimVerif.Props.C05c"]
 THEOREM_MODULE = "SimVerif.Props.C05"
 NONTRIVIAL_FLAGS = {"fallback", "multi-cand", "multi-query", "shards-interleaved", "jittered-commands", "compared-nonempty", "competition", "continuation", "compare-with-ids"}
